@@ -752,6 +752,7 @@ func fnGenerate(f *ast.File, specs []string) (string, []string) {
 	if cfgSpecs(specs) {
 		return fnCfgGenerate(f, specs) // the configuration backend (fn_cfg.go)
 	}
+	f, specs = fnFresh(f, specs) // fn_fresh.go: fresh:R.F -- a method that builds an object sharing R's object field
 	f, normText := fnNormalize(f, specs) // fn_stdobj.go: switch -> if chain in the listed functions that have a switch
 	g := &fnGen{file: f, funcs: map[string]*fnFunc{}, byCall: map[string]*fnFunc{}, structs: map[string]*ast.TypeSpec{}, consts: pkgConsts(f),
 		ifaces: map[string]*ast.TypeSpec{}, named: map[string]*ast.TypeSpec{}, usedStructs: map[string]bool{}, recordText: map[string]string{}, writes: map[string][]string{},
